@@ -26,7 +26,7 @@ ASSEMBLE_LOCK = threading.Lock()
 REPO = os.environ.get("VERIF_REPO", "/repo")
 VERUS = shutil.which("verus") or "/usr/local/bin/verus"
 
-PROOF_FAIL = re.compile(r"not satisfied|assertion failed|possible arithmetic|possible division|possible bit shift|"
+PROOF_FAIL = re.compile(r"(postcondition|precondition|invariant|decreases) not satisfied|assertion failed|possible arithmetic|possible division|possible bit shift|"
                         r"could not prove termination|decreases not satisfied|unreachable|"
                         r"failed precondition|cannot show|might not be|recommendation not met: value may be out of range")
 RLIMIT = re.compile(r"[Rr]esource limit|rlimit")
@@ -59,6 +59,8 @@ def parse_verus_errors(stderr, linemap, fname):
         m = re.match(r"error(\[E\d+\])?: (.*)$", lines[i])
         if m and not m.group(2).startswith("aborting due to"):
             msg = m.group(2)
+            if m.group(1):
+                msg = "rustc " + m.group(1) + " " + msg   # a compiler (type/borrow) error is never a proof verdict
             line = None
             snippet = ""
             j = i + 1
@@ -228,7 +230,7 @@ def run_verus_unit(prop, u, workdir, variant="main"):
     res["errors"] = errs
     if vr.get("success") and not errs:
         res["status"] = "verified"
-    elif vr.get("encountered-vir-error") or any(not PROOF_FAIL.search(e["msg"]) and not RLIMIT.search(e["msg"]) for e in errs) or not errs:
+    elif vr.get("encountered-vir-error") or any(e["msg"].startswith("rustc [E") or (not PROOF_FAIL.search(e["msg"]) and not RLIMIT.search(e["msg"])) for e in errs) or not errs:
         res["status"] = "tool-error"
         res["detail"] = "\n".join(e["msg"] for e in errs)[:2000] or p.stderr[-2000:]
     elif any(PROOF_FAIL.search(e["msg"]) for e in errs):
